@@ -37,7 +37,7 @@ type Plan34 struct {
 
 func gen34(r *simcore.Rand, tier string) any {
 	p := &Plan34{}
-	p.World = genWorld(r, worldOpts{forks: []string{"cancun", "prague", "osaka", "amsterdam", "amsterdam"}, maxBlocks: 3, maxTxs: 12, maxContr: 6, lowGasProb: 0.1, blockhash: true})
+	p.World = genWorld(r, worldOpts{forks: []string{"cancun", "prague", "osaka", "amsterdam", "amsterdam"}, maxBlocks: 4, maxTxs: 10, maxContr: 6, lowGasProb: 0.1, blockhash: true})
 	p.Scheme = []string{rawdb.HashScheme, rawdb.PathScheme}[r.Intn(2)]
 	p.CleanMB = []int{0, 1, 16}[r.Intn(3)]
 	p.SnapMB = []int{0, 1, 16}[r.Intn(3)]
@@ -229,9 +229,32 @@ func run34(t *testing.T, pl any) *simcore.Result {
 				res.Probes["fault-outcome-same-roots"]++
 				lh = lh.String("S")
 			default:
+				// classify (never decides whether this is a violation): did the state database record an
+				// error that ExecuteStateless did not surface, or did nothing at all notice the gap?
 				kind := []string{"node", "code", "header"}[min(f.Kind, 2)]
-				return res.Fail(&simcore.Violation{Oracle: "incomplete-witness-different-result", Key: "incomplete-witness-different-result:" + kind,
-					Msg: fmt.Sprintf("block %d (%s, %d txs): with %s removed from the witness ExecuteStateless returned no error and state root %x, receipt root %x; the block has state root %x, receipt root %x", bi, p.World.Fork, len(blk.Transactions()), what, fs, fr, blk.Root(), blk.ReceiptHash())})
+				class := "no-error-recorded-anywhere"
+				if kind == "header" {
+					// core.GetHashFn: chain.GetHeader returns nil for the missing ancestor and BLOCKHASH evaluates to zero
+					class = "missing-ancestor-reads-as-zero-hash"
+				}
+				note := ""
+				func() {
+					defer func() { recover() }()
+					_, _, dbErr, _ := core.VerifExecsimStatelessDBError(context.Background(), b.gspec.Config, vm.Config{}, task, fw)
+					if dbErr != nil {
+						class = "statedb-error-not-surfaced"
+						note = "; the StateDB had recorded: " + errStr(dbErr)
+					}
+				}()
+				key := "incomplete-witness-different-result:" + kind + ":" + class
+				if simcore.IsKnown(key) {
+					res.KnownHit(key)
+					res.Probes["fault-outcome-known-finding"]++
+					lh = lh.String("K")
+					continue
+				}
+				return res.Fail(&simcore.Violation{Oracle: "incomplete-witness-different-result", Key: key,
+					Msg: fmt.Sprintf("block %d (%s, %d txs): with %s removed from the witness ExecuteStateless returned no error and state root %x, receipt root %x; the block has state root %x, receipt root %x%s", bi, p.World.Fork, len(blk.Transactions()), what, fs, fr, blk.Root(), blk.ReceiptHash(), note)})
 			}
 		}
 	}
